@@ -162,6 +162,9 @@ def _run_structural(ctx):
         # every call must go through the memoised wrapper, never to the raw function
         raw = [c for f in [tw] + list(tw.nested.values()) for c in _calls(f.node) if isinstance(c.func, ast.Name) and c.func.id == visit.name]
         roots_ok = roots_ok and not raw
+    from .shared import rule_targets_argument, rule_calls_bind
+    rule_calls_bind(ctx, r3, ("gwf.plugins.touch",))
+    rule_targets_argument(ctx, r3, "gwf.plugins.touch:touch", "`gwf touch [NAMES]`")
     # "with spec hashing on their current specs are recorded": recorded means saved - the store persists its table on every exit, whatever was on disk before
     from .persist import rule_close_writes, rule_exit_persists
     rule_exit_persists(ctx, r3, ("spec hashes",))
